@@ -8,6 +8,7 @@ from kmip.core import enums as E
 from vlib import core
 from vlib import harness as H
 from vlib import fixtures as F
+from vlib import ttlvref as T
 from vlib import c19_wire as W
 from vlib import c19_engine as EN
 from vlib import c05_wire as CW
@@ -311,7 +312,10 @@ class RawDriver(Base):
         if rr["resp"] is None:
             return Out("exc", exc=rr["error"], message="server stage " + rr["stage"]), None
         self.internal = list(rr.get("internal") or [])
-        status, reason, message, payload = CW.single(rr["resp"])
+        try:
+            status, reason, message, payload = CW.single(rr["resp"])
+        except T.TTLVError as e:
+            return Out("exc", exc=e, message="the response is not well-formed TTLV"), None
         if status != 0:
             return Out("fail", reason=reason_name(reason), message=message), None
         return None, payload
@@ -928,7 +932,10 @@ def run_case(spec):
             r = H.Client(server, "alice", None, (1, 2)).one(
                 F.register_item("SymmetricKey", label="base", bits=spec["derive"]["base_len"] * 8))
             if r["status"] != "SUCCESS":
-                raise core.HarnessError("cannot register the derivation base: %r" % (r,))
+                # a fixture key that cannot be registered: nothing to judge here, counted as not stored
+                classes.append("status:derivation-base-not-registered")
+                return {"buckets": [], "classes": classes, "nontrivial": False, "status": "refused",
+                        "bumps": bumps}
             base = r["payload"]["uid"]
         drv = DRIVERS[path](server, v)
         out = drv.derive(spec, base) if how == "derive" else getattr(drv, how)(spec)
@@ -984,6 +991,7 @@ def run_case(spec):
             if pub is not None and priv is not None and pub.kind == "ok" and priv.kind == "ok" \
                     and pub.data["secret"] and priv.data["secret"]:
                 ok, why = keypair_consistent(pub.data["secret"], priv.data["secret"], spec["len"])
+                classes.append("keypair-consistency-checked")
                 if not ok:
                     buckets.append(("%s|keypair|inconsistent" % PID, why))
     finally:
@@ -1035,13 +1043,8 @@ def classify_refusal(out, drv, phase, buckets, classes, spec):
 
 
 def read_all(drv, e, spec):
-    rd = {"get": drv.get(e["uid"]), "attrs": None, "names": None}
-    skip = (drv.path != "raw" and e["otype"] == "Certificate" and drv.v >= (2, 0)
-            and not spec.get("probe_cert20"))
-    if not skip:
-        rd["attrs"] = drv.get_attributes(e["uid"])
-    rd["names"] = drv.get_attribute_list(e["uid"])
-    return rd
+    return {"get": drv.get(e["uid"]), "attrs": drv.get_attributes(e["uid"]),
+            "names": drv.get_attribute_list(e["uid"])}
 
 
 def judge_reading(spec, e, rd, drv, buckets, classes, label):
